@@ -155,3 +155,15 @@ func (w *Watcher) Call(f func()) (blocked bool) {
 		}
 	}
 }
+
+// AtGuard reports, from one goroutine dump, which of the given goroutines are parked in
+// sync.Mutex.Lock called directly from the method (they wait for the object's own mutex).
+func AtGuard(nextFrame string, ids map[int64]bool) map[int64]bool {
+	res := map[int64]bool{}
+	for _, g := range dumpStates(nextFrame) {
+		if ids[g.id] && g.atGuard {
+			res[g.id] = true
+		}
+	}
+	return res
+}
